@@ -394,6 +394,8 @@ def parts(ctx):
     A(dict(name="quant-d2", profile=P.quant_profile, depth=2, shards=16, dom={INT: (0, 1)}, max_new=1))
     A(dict(name="names-d2", profile=names_profile, depth=2, shards=16, dom={INT: (0, 1)}, max_new=1))
     A(dict(name="ascii-names-d1", profile=ascii_names_profile, depth=1, shards=8))
+    A(dict(name="nary5-d1", profile=P.nary5_profile, depth=1, shards=16, dom={INT: (-1, 0, 2)}))
+    A(dict(name="bv33-d1", profile=lambda e: P.widebv_profile(e, 33), depth=1, shards=8, dom=P.widebv_dom(33)))
     A(dict(name="letbinder-d3", profile=letbinder_profile, depth=3, shards=16, dom={INT: (0, 1)},
            mid_ops=lambda o: o.name in ("not", "and", "or", "le", "plus"),
            top_ops=lambda o: o.name.startswith(("forall", "exists"))))
